@@ -177,6 +177,7 @@ def _mk_nn(Rc, Rx):
         _fields(w, "set_control_variable", h.obj.set_control_variable(h.u), g, ("M", "b", "Sigma", "Lambda", "ln_det_Sigma"))
         w.equal("get_conditional_mu", h.obj.get_conditional_mu(x, h.u), g.get_conditional_mu(x))
         _fields(w, "condition_on_x_u", h.obj.condition_on_x_u(x, h.u), g.condition_on_x(x), ("Sigma", "mu", "Lambda", "ln_det_Sigma", "nu", "ln_beta"))
+        _fields(w, "__call__", h.obj(x, h.u), g.condition_on_x(x), ("Sigma", "mu", "Lambda", "ln_det_Sigma", "nu", "ln_beta"))
         y = w.arr("y", Rc if Rc != 1 else "N", "Dy")
         _fields(w, "set_y", h.call("set_y", y), g.set_y(y), ("Lambda", "nu", "ln_beta"))
         for name, flds in (("affine_joint_transformation", ("Sigma", "mu", "Lambda", "ln_det_Sigma")),
@@ -222,7 +223,7 @@ def _register():
     for (Rc, Rx) in LAYOUTS:
         REG.ob(f"NNControlGaussianConditional-vs-general/R=({Rc},{Rx})", sorts=[s for s in (Rc, Rx) if s != 1] + ["Dx", "Dy", "N", "Du"],
                order={("Dx", "Dy"): True},
-               funcs=[f"conditional.NNControlGaussianConditional.{m}" for m in ("set_control_variable", "get_M_b", "get_conditional_mu", "condition_on_x_u",
+               funcs=[f"conditional.NNControlGaussianConditional.{m}" for m in ("set_control_variable", "get_M_b", "get_conditional_mu", "condition_on_x_u", "__call__",
                       "set_y", "affine_joint_transformation", "affine_marginal_transformation", "affine_conditional_transformation",
                       "conditional_entropy")])(_mk_nn(Rc, Rx))
 
